@@ -181,6 +181,22 @@ def sweep(tier: str) -> Sweep:
         check_class(sw, "MapConst", C, None)
         check_class_const_slots(sw, C, m, False)
         check_sequences(sw, "MapConst", C, r, 2, 30)
+    # map-back through the library: inside a group every occurrence after the first carries a suffix, and a directive
+    # repeated inside such an occurrence carries a counter as well (x__1___day_pad__1__1): all of them are statements of
+    # one field, so equal texts are read as that field and unequal texts are refused
+    for name, G, d, fmt, text, bad, t1 in corr_fmt.group_inner_repeats():
+        case = {"cls": name, "directive": d, "clause": "group-mapback", "fmt": fmt, "text": text, "meta": False}
+        sw.note(["group-mapback", name, fmt, text], "group-mapback")
+        try:
+            g = G.parse(text, fmt)
+            got = g.groups["x"].format(d)
+        except Exception as e:  # noqa: BLE001
+            sw.check(bad is not None, "equal statements of one field in a group are refused", case, t1, f"{type(e).__name__}: {str(e)[:80]}")
+            continue
+        if bad is None:
+            sw.check(got == t1, "repeated captures of a group do not map back to their field", case, t1, got)
+        else:
+            sw.check(False, "unequal statements of one field in a group are accepted (a repeated capture is not mapped back to its field)", case, "refused", got)
     return sw
 
 
